@@ -88,7 +88,11 @@ def main():
     for r in recs:
         if not r["accepted"]:
             if "/w" in r["config"] and "draw cap" in (r.get("init_error") or ""):
-                slow.append({"config": r["config"], "note": "initialisation shot cut by the draw cap"})
+                if "/m10/" in r["config"]:
+                    # mode 10 in a window in the tail of the positron spectrum: legitimately tiny acceptance (see above)
+                    slow.append({"config": r["config"], "note": "initialisation shot cut by the draw cap"})
+                else:
+                    chk.violation(r["config"] + "|unbounded-draws-at-initialisation", "%s: the initialisation consumed more than 2e6 deviates" % r["config"], {"config": r["config"]})
             if r["config"].startswith("bkg/"):
                 chk.violation(r["config"] + "|refused", "published background name refused: %s" % r.get("init_error"), {"config": r["config"]})
             continue
